@@ -159,6 +159,8 @@ class CmdWorld:
     def start_pump(self, interval: float, batch: int | None) -> None:
         """Consumer lag model: every `interval` seconds process at most `batch` queued records."""
 
+        self.pumps.rate = None if batch is None else batch / interval
+
         def tick() -> None:
             self.pumps.pump_all(batch)
             self.pump_timer = self.loop.call_later(interval, tick)
